@@ -618,8 +618,10 @@ def malformed_case(ctx):
 
 
 def f29_witness(ctx):
-    """Fixed witness of known finding F29 (known_findings.json): executed once per run so
-    that the check reports the finding (or notices that it has gone)."""
+    """Fixed witness of the repaired defect F29 (known_findings.json, 'fixed:' 42d3b52b):
+    the copying forms re-attach the transformed subregions and refused them once their
+    rounding error exceeded the region's 1e-12 comparison tolerance.  Executed as case 0
+    of every run: every step must be accepted (a 'fixed:' entry suppresses nothing)."""
     cell = np.array([0.07928503324523198, 0.01884270559889971, 0.06676965309023948])
     n = np.array([2, 1, 1])
     spec = gen.MeshSpec(np.zeros(3), cell, n, ["x", "y", "w"], ["nm", "s", "K"], [False] * 3)
